@@ -47,6 +47,15 @@ CHECKS = {
                      "random frames judged by TLC.",
                 technique="TLC model checking (design = relational definition); spec->code replay; code->spec trace validation",
                 ref="§6 C05"),
+    "C06": dict(engine="DaskFrame/MC_DaskFrame (+ GeoFrameOps, SJoin, RTree)",
+                text="State machine of a Dask frame (partitions, cached partition bounds) with provenance actions (touch caches, row filter, "
+                     "column selection) and queries; TLC checks that the partition-level mechanism (partition bounds, NaN for empty / inert "
+                     "partitions, partition R-tree, per-partition cx, right-frame pre-filter of sjoin, nanmin/nanmax total bounds) equals the "
+                     "pandas meaning on the concatenated rows and that a cache always describes its own frame; behaviours are replayed on "
+                     "real DaskGeoDataFrames with exactly those partitions (optionally through parquet) and compared with the model and with "
+                     "pandas on compute().",
+                technique="TLC model checking of a state machine with caches; spec->code replay; differential against pandas on the concatenated frame",
+                ref="§6 C06"),
     "C07": dict(engine="Hilbert/HilbertSkilling/MC_Hilbert/Trace_Hilbert",
                 text="TLC checks the finite transducer lemma L1-L4 (from which bijectivity, unit steps, corners and refinement follow for "
                      "every order p by the written induction), transducer = textbook recursion, and the transcription of the Skilling "
